@@ -378,6 +378,48 @@ func main() {
 		}
 		return ls
 	}
+	// long chords, small thresholds: projected-metre magnitudes (chords of 2^20..2^24) with vertices a few centimetres
+	// to decimetres off the chord and a centimetre threshold. The point-to-chord distance must not be lost to
+	// cancellation: every dropped vertex stays within the threshold (judged with a projection-based distance that is
+	// exact to ~1e-9 here), vertices farther off than the threshold are never all dropped.
+	r.Explore("long-chords", "chords of length ~L in {2^20, 2^22, 2^24} (2 directions x 2 start points, one far from the origin) x 5 interior vertices (even / uneven fractions) displaced perpendicular to the chord by one of {0.05, 0.1, 0.2, 1, 3} (alternating sides / one side) x thresholds {0.01, 0.03, 0.5}: Douglas-Peucker error bound, idempotence, end points", mc.Opts{MaxDev: -1}, func(c *mc.Ctx) {
+		L := []float64{1 << 20, 1 << 22, 1 << 24}[c.Choose(3)]
+		off := []float64{0.05, 0.1, 0.2, 1, 3}[c.Choose(5)]
+		t := []float64{0.01, 0.03, 0.5}[c.Choose(3)]
+		// the chord: along (3,1) or a general direction, from the origin or from a point far from it; the vertices
+		// at even or uneven fractions, on alternating sides or all on one side
+		dir := []orb.Point{{L, L / 3}, {L * 0.9123456, L * 0.7345678}}[c.Choose(2)]
+		a := []orb.Point{{0, 0}, {-8231234.37, 4971456.91}}[c.Choose(2)]
+		fr := [][]float64{{1. / 6, 2. / 6, 3. / 6, 4. / 6, 5. / 6}, {0.45, 0.65, 0.8, 0.85, 0.9}}[c.Choose(2)]
+		oneSide := c.Bool()
+		dl := math.Hypot(dir[0], dir[1])
+		nx, ny := -dir[1]/dl, dir[0]/dl
+		in := orb.LineString{a}
+		for k, f := range fr {
+			sgn := float64(1 - 2*(k%2))
+			if oneSide {
+				sgn = 1
+			}
+			in = append(in, orb.Point{a[0] + dir[0]*f + sgn*off*nx, a[1] + dir[1]*f + sgn*off*ny})
+		}
+		in = append(in, orb.Point{a[0] + dir[0], a[1] + dir[1]})
+		out := simplify.DouglasPeucker(t).LineString(in.Clone())
+		desc := fmt.Sprintf("DouglasPeucker(%v) L=%v offset=%v line=%v result=%v", t, L, off, in, out)
+		if len(out) < 2 || out[0] != in[0] || out[len(out)-1] != in[len(in)-1] || !subseq(out, in) {
+			c.Failf("dp-subsequence", "not a subsequence keeping the end points | %s", desc)
+			return
+		}
+		for _, p := range in {
+			if d := distToLine(out, p); d > t*(1+1e-6)+1e-6 {
+				c.Failf("dp-distance", "vertex %v is left %v from the simplified line | %s", p, d, desc)
+				return
+			}
+		}
+		if again := simplify.DouglasPeucker(t).LineString(out.Clone()); !same(again, out) {
+			c.Failf("dp-idempotent", "simplifying again gives %v | %s", again, desc)
+		}
+		c.NonTrivial()
+	})
 	r.Explore("families", fmt.Sprintf("6 families (sawtooth, growing sawtooth, arc, staircase with repeats, collinear, closed loop) x lengths %v: the same oracle as `lines`; then 7 simplifier objects each used for two different lines in a row against fresh objects", lens), mc.Opts{MaxDev: -1, Split: 2}, func(c *mc.Ctx) {
 		f := c.Choose(6)
 		n := lens[c.Choose(len(lens))]
